@@ -85,6 +85,7 @@ func contentPlan(prop string, tier string, root *simcore.RNG, sinks []string, nq
 		}
 		pl.scenarios = append(pl.scenarios, sc)
 	}
+	pl.scenarios = append(pl.scenarios, triggerSweep(root, prop, "content", sinks, tier)...)
 	// large outputs: round counts (and their neighbours) up to 2^16, thorough 2^17 / 2^20 for STL
 	{
 		big := []int{1023, 1024, 1025, 2048, 3000, 4096, 8192, 10000, 65535, 65536, 65537}
@@ -109,6 +110,20 @@ func contentPlan(prop string, tier string, root *simcore.RNG, sinks []string, nq
 					sc := &Scenario{Prop: prop, Family: "content", Seed: r.Uint64(), Env: genEnv(r), Groups: [][]Job{{j}},
 						Sites: activeSites(r, sink, false), Sched: genSched(r, []string{"consumer", "renderer"}), Note: "large", StepCap: 4000000}
 					delete(sc.Sites, "auto")
+					// pipelines inside a writer only show with many blocks in flight: half of
+					// these on the -race build, the largest ones on both builds
+					if r.Intn(2) == 0 {
+						sc.Env.Race = true
+					}
+					if cnt > 60000 {
+						if len(j.Batches[0]) == 1 && j.Batches[0][0].Count == 1 {
+							sc.Groups[0][0].Batches = genPartition(r, cnt, 1, "chunks")
+						}
+						twin := *sc
+						twin.Seed = r.Uint64()
+						twin.Env.Race = !sc.Env.Race
+						pl.scenarios = append(pl.scenarios, &twin)
+					}
 					pl.scenarios = append(pl.scenarios, sc)
 				}
 			}
@@ -138,7 +153,14 @@ func contentPlan(prop string, tier string, root *simcore.RNG, sinks []string, nq
 		j := Job{ID: 1, Kind: kind, Sink: sink, N: cnt, Coords: "wild-small", CoordSeed: r.Uint64(), StallMs: ms,
 			Batches: [][]Run{{{300, 1}, {5, (cnt - 300) / 5}}}}
 		pl.scenarios = append(pl.scenarios, &Scenario{Prop: prop, Family: "content", Seed: r.Uint64(), Env: genEnv(r), Groups: [][]Job{{j}},
-			Sites: activeSites(r, sink, true), Sched: Sched{Policy: "fifo"}, Note: "real-time-stall"})
+			// (hooks on the producer's side only: the writer goroutine must be running, not
+			// parked, while the producer pauses - half of the episodes)
+			Sites: func() map[string]uint32 {
+				if ms == stalls[0] && r.Intn(2) == 0 && len(stalls) > 1 {
+					return activeSites(r, sink, true)
+				}
+				return map[string]uint32{"prod": 1, "close": 1}
+			}(), Sched: Sched{Policy: "fifo"}, Note: "real-time-stall"})
 	}
 	pl.nontriv = func(o *runOut) (bool, string) {
 		if o.res == nil {
